@@ -328,7 +328,9 @@ Bad(b, p, f) ==
   R_init_empty          |-> fm = "init" /\ f.n = 0 /\ f.tgt = "arr_unk",
   R_init_nonconst       |-> \/ fm = "init" /\ p = "file" /\ f.val = "gi"
                             \/ fm = "sinit" /\ T /\ p = "file" /\ ~Ent(f.o).cst,
-  R_static_init_address |-> fm = "misc" /\ T /\ f.kind \in {"static_init_addr_local", "static_init_addr_compound", "static_init_addr_index"},
+  (* 6.7.9p4 with 6.6p9: an address constant points to an object of STATIC storage duration (not automatic, not thread) *)
+  R_static_init_address |-> \/ fm = "misc" /\ T /\ f.kind \in {"static_init_addr_local", "static_init_addr_compound", "static_init_addr_index"}
+                            \/ fm = "sinitaddr" /\ f.dur # "static",
   R_init_string_width   |-> fm = "strinit" /\ ( (f.tgt \in {"char4", "charunk"} /\ f.lit = "wide")
                                               \/ (f.tgt = "int4" /\ f.lit = "narrow") ),
   R_dup_member          |-> fm = "struct" /\ DupNames(MemOcc(f.mem)),
@@ -457,6 +459,10 @@ ExcludedCore(b, p, f) ==
   \/ fm = "builtin" /\ f.kind = "alloca_ok" /\ p = "file"
   \* a compound literal at file scope has static storage duration: its address is a constant there
   \/ fm = "misc" /\ f.kind = "static_init_addr_compound" /\ p = "file"
+  \* the automatic and the block-scope thread objects live in zbase
+  \/ fm = "sinitaddr" /\ f.dur \in {"auto", "tls_block"} /\ p = "file"
+  \* `T td_t;` at file scope would redeclare the typedef in its own scope
+  \/ fm = "tdshadow" /\ f.where = "obj" /\ p = "file"
   \* _Bool op= pointer: a constraint violation by 6.5.16.2p1-2 that the reference compilers accept silently
   \/ fm = "asg" /\ f.op # "=" /\ f.l = "gb" /\ IsPtr(VT(f.r))
   \* an address converted to _Bool is not one of the constant expressions 6.6p7 requires for static initializers
@@ -667,7 +673,8 @@ Wit == [
   R_too_many_init |-> {FInit("arr2", 3, "none", "k1"), FInit("struct_T", 2, "none", "k1"), FInit("int", 2, "none", "k1"), FInit("arr2", 2, "idx1", "k1"),
      FInit("struct_S", 3, "none", "k1"), FInit("struct_S", 3, "mem_m", "k1")},
   R_init_nonconst |-> {FInit("int", 1, "none", "gi"), FInit("arr2", 2, "none", "gi"), FSInit("int", "gi"), FSInit("ptr_int", "gp"), FSInit("struct_S", "gs")},
-  R_static_init_address |-> {FMisc("static_init_addr_local"), FMisc("static_init_addr_compound"), FMisc("static_init_addr_index")},
+  R_static_init_address |-> {FMisc("static_init_addr_local"), FMisc("static_init_addr_compound"), FMisc("static_init_addr_index")}
+     \cup {FSInitAddr(d, sh) : d \in {"auto", "tls_file", "tls_block", "tls_extern"}, sh \in {"scalar", "member", "elem", "decay"}},
   R_init_string_width |-> {FStrInit("char4", "wide"), FStrInit("charunk", "wide"), FStrInit("int4", "narrow")},
   R_dup_member |-> {FStruct(<<M("a", "int"), M("a", "int")>>), FStruct(<<M("a", "int"), M("b", "int"), M("a", "int")>>),
      FStruct(<<M("a", "int"), [M("", "anon") EXCEPT !.inner = <<"a">>]>>),
@@ -796,6 +803,12 @@ BenignFrags == {
   FSwCase("unsigned", KC(1, "0", "int", "lit"), KC(2, "0", "uint", "lit")), FSwCase("long", KC(1, "0", "int", "lit"), KC(1, "1", "ll", "lit")),
   FSwCase("long", KC(-1, "0", "int", "lit"), KC(-1, "1", "uint", "lit")), FSwCase("ulong", KC(-1, "0", "int", "lit"), KC(-1, "-1", "ll", "lit")),
   FSwCase("ulong", KC(7, "0", "int", "lit"), KC(7, "max31", "ull", "lit")),
+  FSInitAddr("static", "scalar"), FSInitAddr("static", "member"), FSInitAddr("static", "elem"), FSInitAddr("static", "decay"),
+  FTdShadow("td_t", "obj"), FTdShadow("td_t", "param"), FTdShadow("td_t", "member"), FTdShadow("struct_S", "obj"), FTdShadow("struct_S", "param"),
+  FTdShadow("struct_S", "member"), FTdShadow("union_U", "obj"), FTdShadow("enum_E", "obj"), FTdShadow("enum_E", "param"), FTdShadow("enum_E", "member"),
+  FTdShadow("void_ptr", "obj"), FTdShadow("void_ptr", "param"), FTdShadow("void_ptr", "member"), FTdShadow("_Bool", "obj"), FTdShadow("_Bool", "param"),
+  FTdShadow("_Bool", "member"), FTdShadow("int", "obj"), FTdShadow("int", "param"), FTdShadow("int", "member"), FTdShadow("ptr_td", "obj"),
+  FTdShadow("ptr_td", "param"), FTdShadow("ptr_td", "member"), FTdShadow("union_U", "member"),
   FUse("gi"), FUse("ek"), FBin("+", "gp", "gi"), FBin("+", "gi", "gq"), FBin("-", "gp", "gcp"), FBin("-", "gq", "gi"), FBin("==", "gp", "k0"),
   FBin("!=", "gv", "gp"), FBin("==", "gfp", "gfp"), FBin("<", "gp", "gcp"), FBin(">=", "gv", "gv"), FBin("<=", "gip", "gip"), FBin("&", "gi", "k0"),
   FBin("%", "gi", "gi"), FBin("<<", "gi", "k0"), FBin("&&", "gp", "gd"), FBin("||", "gfp", "gi"), FBin("*", "gd", "gi"), FBin("/", "gi", "gd"),
@@ -1209,6 +1222,8 @@ SubOf(f) == CASE f.form = "bin" -> (IF f.l \in EntNames /\ f.r \in EntNames /\ N
               [] f.form = "cinit" -> SubOf(f.of)
               [] f.form = "enumfix" -> f.ub
               [] f.form = "swcase" -> f.ct
+              [] f.form = "sinitaddr" -> f.dur \o "-" \o f.shape
+              [] f.form = "tdshadow" -> f.spec \o "-" \o f.where
               [] OTHER -> f.form
 
 (* One invariant evaluates the rules once per state and does three things:                 *)
@@ -1241,7 +1256,7 @@ Inv_Defs == /\ Valid(prog) <=> Violated(prog) = {}
 
 (* tables the harness needs (entities, types, bases): exported once *)
 Meta == [ents |-> [n \in EntNames |-> [decl |-> Ent(n).decl, txt |-> Ent(n).txt, loc |-> Ent(n).loc]],
-         ctype |-> CType, prelude |-> PreludeTypes, bases |-> BaseTab, ctlvar |-> CtlVar,
+         ctype |-> CType, prelude |-> PreludeTypes, bases |-> BaseTab, ctlvar |-> CtlVar, locals |-> PreludeLocals,
          rules |-> RuleNames, unsup |-> UnsupNames,
          nwit |-> [r \in RuleNames \cup UnsupNames |-> Cardinality(Wit[r])]]
 ASSUME PrintT("VCASE " \o ToJson([meta |-> Meta]))
